@@ -33,7 +33,7 @@ HBIN = os.path.join(HARNESS, "target", "debug", "harness")
 ALLOWED_AXIOMS = {"propext", "Classical.choice", "Quot.sound"}
 
 sys.path.insert(0, os.path.join(VERIF, "tools"))
-from props import PROPS, PRIMS, TRUSTED_BASE, LOOM, INJECT, INJECT_BUDGET  # noqa: E402
+from props import PROPS, PRIMS, TRUSTED_BASE, LOOM, INJECT, INJECT_BUDGET, INJECT_RANDOM, INJECT_SEARCH  # noqa: E402
 
 ENV = dict(os.environ, CARGO_NET_OFFLINE="true")
 
@@ -63,15 +63,20 @@ IBIN = os.path.join(HARNESS, "target", "debug", "inject")
 
 
 def run_inject(prim, runs, prop):
-    """all runs of the budget, merged"""
+    """all runs of the budget, merged; a run is (depth, inner, post) or ("random", prim', seed, count, maxdepth)"""
     tot = None
-    for (depth, inner, post) in runs:
-        r = run_inject1(prim, depth, inner, post, prop)
+    for run in runs:
+        if run[0] == "random":
+            depth, inner, post = run, None, None
+            r = run_inject1(prim, None, None, None, prop, random=run[1:])
+        else:
+            (depth, inner, post) = run
+            r = run_inject1(prim, depth, inner, post, prop)
         if tot is None:
             tot = r
-            tot["runs"] = [[depth, inner, post]]
+            tot["runs"] = [list(run)]
         else:
-            tot["runs"].append([depth, inner, post])
+            tot["runs"].append(list(run))
             for k in ("scenarios", "accepted", "s"):
                 tot[k] = round(tot[k] + r[k], 1)
             tot["total_seen"] = tot.get("total_seen", 0) + r.get("total_seen", 0)
@@ -84,7 +89,7 @@ def run_inject(prim, runs, prop):
     return tot
 
 
-def run_inject1(prim, depth, inner, post, prop):
+def run_inject1(prim, depth, inner, post, prop, random=None):
     """Preemption injection: the real crate with one call preempted before each of its atomic
     operations by complete calls of other agents (hook H4), every recorded trace replayed in the
     acceptor of the atomic-granularity Lean model.  Returns a dict."""
@@ -93,13 +98,17 @@ def run_inject1(prim, depth, inner, post, prop):
     fv = os.path.join(BUILD, "inject_viol_%s.txt" % tag)
     fr = os.path.join(BUILD, "inject_rej_%s.txt" % tag)
     fs = os.path.join(BUILD, "inject_stat_%s.txt" % tag)
-    cmd = ("set -o pipefail; %s %s %d %d %d 2>%s | tee >(grep ' V:' | awk 'NR<=200' > %s) | %s > %s"
-           % (IBIN, prim, depth, inner, post, fs, fv, ACCEPT, fr))
+    if random:
+        gen = "%s random %s %d %d %d" % (IBIN, random[0], random[1], random[2], random[3])
+    else:
+        gen = "%s %s %d %d %d" % (IBIN, prim, depth, inner, post)
+    cmd = ("set -o pipefail; %s 2>%s | tee >(grep ' V:' | awk 'NR<=200' > %s) | %s > %s"
+           % (gen, fs, fv, ACCEPT, fr))
     t0 = time.time()
     p = subprocess.run(["bash", "-c", cmd], capture_output=True, text=True, env=ENV)
     # the process substitution may still be flushing
     time.sleep(0.2)
-    res = {"prim": prim, "depth": depth, "inner": inner, "s": round(time.time() - t0, 1), "rc": p.returncode,
+    res = {"prim": random[0] if random else prim, "depth": depth, "inner": inner, "s": round(time.time() - t0, 1), "rc": p.returncode,
            "scenarios": 0, "accepted": 0, "rejected": [], "violations": [], "stderr": p.stderr[-2000:]}
     try:
         st = open(fs).read()
@@ -126,9 +135,9 @@ def run_inject1(prim, depth, inner, post, prop):
         for line in open(fv):
             hd, _, body = line.rstrip("\n").partition(" | ")
             toks = body.split(" ")
-            v = [t for t in toks if t.startswith("V:")]
-            res["violations"].append({"header": hd, "key": toks[0], "what": v[0][2:].replace("_", " ") if v else "",
-                                      "trace": body})
+            for v in [t for t in toks if t.startswith("V:")]:
+                res["violations"].append({"header": hd, "key": toks[0], "what": v[2:].replace("_", " "),
+                                          "trace": body, "prim": res["prim"]})
     except OSError:
         pass
     for f in (fv, fr, fs):
@@ -645,21 +654,35 @@ def check(prop, tier, seed):
                                   "what": "the acceptor (lean/ALock/Atomic/Accept.lean) no longer builds", "log": log_a})
                 violations.append((rp, "no-failing-input-found"))
                 continue
-            r = run_inject(prim, INJECT_BUDGET[tier][prim], prop)
+            rc_, rd_ = INJECT_RANDOM[tier]
+            r = run_inject(prim, list(INJECT_BUDGET[tier][prim]) + [("random", prim, seed, rc_, rd_)], prop)
             cov["preemption_injection"][prim] = {k: r[k] for k in ("runs", "scenarios", "accepted", "s")}
             total_hist += r["scenarios"]
-            mine = [v for v in r["violations"] if prop in re.findall(r"C\d\d", v["what"].split("]")[0])]
-            if prop == "C10":
-                # a trace of a cancelled operation: the schedule has to contain a cancellation
-                mine = [v for v in mine if ":cancel" in v["trace"]]
+            def mine_of(r):
+                m = [v for v in r["violations"] if prop in re.findall(r"C\d\d", v["what"].split("]")[0])]
+                if prop == "C10":
+                    # a trace of a cancelled operation: the schedule has to contain a cancellation
+                    m = [v for v in m if ":cancel" in v["trace"]]
+                return m
+            mine = mine_of(r)
             incomplete = r["rc"] != 0 or r["scenarios"] == 0 or r.get("empty_run") or r.get("total_seen") != r["scenarios"]
+            if not mine and (r["rejected"] or incomplete):
+                # the tie is broken: look deeper (longer random prefixes, more agents) for a schedule on
+                # which the implementation itself violates the property
+                cnt_, dep_ = INJECT_SEARCH
+                for p2 in ([prim, "mutex5"] if prim == "mutex" else [prim]):
+                    r2 = run_inject(prim, [("random", p2, seed + 1, cnt_, dep_)], prop)
+                    mine = mine_of(r2)
+                    if mine:
+                        cov["preemption_injection"][prim]["search"] = {"prim": p2, "scenarios": r2["scenarios"], "s": r2["s"]}
+                        break
             if mine:
                 v = mine[0]
                 hd = v["header"].split()
                 rp = write_replay(prop, "inject_" + prim, {
                     "property": prop, "kind": "inject", "what": "real crate, one call preempted by hook H4: " + v["what"],
                     "scenario": v["key"], "trace": v["trace"], "others": len(mine) - 1,
-                    "cmd": "cd harness && cargo build --offline && ./target/debug/inject replay %s %s '%s'" % (prim, hd[2], v["key"])})
+                    "cmd": "cd harness && cargo build --offline && ./target/debug/inject replay %s %s '%s'" % (v.get("prim", prim), hd[2], v["key"])})
                 violations.append((rp, ""))
             elif r["rejected"] or incomplete:
                 rej = r["rejected"][0] if r["rejected"] else ""
